@@ -63,7 +63,12 @@ ProbeOK(mm, pr, lo) ==
        /\ mm.dptr = pr.dptr
        /\ (~mm.ctlx /\ ~mm.stale) =>
             /\ Len(mm.ctl) = Len(pr.frames) /\ \A i \in 1..Len(mm.ctl) : FrameOK(mm.ctl[i], pr.frames[i])
-            /\ pr.junk = (IF mm.mode = "input" THEN 3 ELSE 0)
+            \* expression temporaries: none between statements; an INPUT statement that is waiting
+            \* (or was interrupted while waiting and can be continued) holds its prompt and counts
+            /\ pr.junk \in (IF mm.mode = "input" THEN {3}
+                           ELSE IF mm.cont # NoCont /\ mm.cont.ln # PastEnd /\ InList(CodeOf(mm, mm.cont.ln), mm.cont.path)
+                                   /\ StmtAt(CodeOf(mm, mm.cont.ln), mm.cont.path).k = "input" THEN {0, 3}
+                           ELSE {0})
   /\ (~HadError(mm.resp) /\ mm.mode = "ready" /\ ~mm.contx) => ((mm.cont # NoCont) = pr.cancont)
 
 OutSoFar(mm) == IF mm.resp # <<>> /\ mm.resp[Len(mm.resp)].k = "out" THEN mm.resp[Len(mm.resp)].s ELSE <<>>
